@@ -239,7 +239,7 @@ def gen_model(r, *, budget=6000, max_T=4, force=None):
         ivars = [v for v in uvars if v in disc]
         e = N(r.randint(-2, 2))
         for v in ivars:
-            e = ["add", e, ["mul", N(r.choice([1, 2, -1, 3, 50, 100])), V(v)]]
+            e = ["add", e, ["mul", N(r.choice([100, 150, -100]) if "narrownext" in force else r.choice([1, 2, -1, 3, 50, 100])), V(v)]]
         r.shuffle(ivars)
         funcs[-1] = _fn("utility", ivars, e, ints=True)
         meta["intutil"] = True
@@ -500,6 +500,18 @@ def gen_model(r, *, budget=6000, max_T=4, force=None):
             funcs.append(_fn(f"use_{v}_constraint", [v], ["le", N(min(grid_points(G[v]))), V(v)]))
     r.shuffle(funcs)
     mj = {"n_periods": T, "states": states, "choices": choices, "functions": funcs}
+    if "narrownext" in force:
+        # deterministic transitions of discrete states return int8 (all values are valid codes)
+        for f in funcs:
+            if f["name"].startswith("next_") and not f.get("stochastic") and f.get("ints") and f["name"][5:] in dstates:
+                f["narrow"] = "int8"
+                meta["narrownext"] = True
+    if "intconstraint" in force:
+        # constraints that return the integers 0 / 1 (an indicator) instead of booleans
+        for f in funcs:
+            if f["name"].endswith("_constraint"):
+                f["body"] = ["ite", f["body"], N(1), N(0)]
+                meta["intconstraint"] = meta.get("intconstraint", 0) + 1
     if "kwonly" in force:
         # parameters declared keyword-only (`def f(x, *, kappa)`; what `functools.partial(f, kappa=...)` looks like as well)
         from dsl import param_slots
